@@ -81,8 +81,53 @@ def tus(tier, seed):
             body += '  msi<%s, %dLL>(rng);\n' % (TAGS[tag], v)
     body += '}\n'
     res.append(dict(name='C08_msi', src=body, compiler='g++'))
+    # numbers with a rounding tag and an elastic layer (either nest order), static_integer, static_number: / and % for
+    # all four signedness mixes of dividend and divisor (kind operands and built-in int / unsigned operands on either side)
+    H = __file__.replace('.py', '.h')
+    pool = [(8, 7), (7, 8), (12, 5), (5, 12), (16, 15), (20, 9), (9, 20), (3, 3), (1, 6), (24, 2), (13, 13)]
+    rnd3 = random.Random(seed * 131 + 8)
+    NN = {True: 'int', False: 'unsigned'}
+    ki = 0
+    for kind in ['re', 'er', 'si', 'sn']:
+        for tag in TAGS:
+            ki += 1
+            T = TAGS[tag]
+            K = lambda d, sg: 'K_%s<%d, %s, %s>' % (kind, d, NN[sg], T)
+            body = '#include "%s"\nint main(){ install(); Rng rng(seed_from_env()+6000+%d);\n' % (H, ki)
+            for j, (sl, sr) in enumerate([(False, True), (True, False), (True, True), (False, False)]):
+                dl, dr = (8, 7) if (j == 0 and (ki + seed) % 3 == 0) else rnd3.choice(pool)
+                body += '  nst<%s, %s, %s>(rng, "%s", %d, %s, %d, %s);\n' % (T, K(dl, sl), K(dr, sr), kind, dl, str(sl).lower(), dr, str(sr).lower())
+            d1, d2, d3 = rnd3.choice([8, 11, 16, 23]), rnd3.choice([4, 8, 15]), rnd3.choice([6, 9, 17])
+            s2, s3 = rnd3.random() < .5, rnd3.random() < .5
+            body += '  nst<%s, %s, int>(rng, "%s", %d, false, 0, true);\n' % (T, K(d1, False), kind, d1)
+            body += '  nst<%s, int, %s>(rng, "%s", 0, true, %d, %s);\n' % (T, K(d2, s2), kind, d2, str(s2).lower())
+            if rnd3.random() < .5:
+                body += '  nst<%s, %s, unsigned>(rng, "%s", %d, %s, 0, false);\n' % (T, K(d3, s3), kind, d3, str(s3).lower())
+            else:
+                body += '  nst<%s, unsigned, %s>(rng, "%s", 0, false, %d, %s);\n' % (T, K(d3, s3), kind, d3, str(s3).lower())
+            body += '}\n'
+            res.append(dict(name='C08_nst_%s_%s' % (kind, tag), src=body, compiler='g++'))
+            if tier == 'thorough' and ki % 4 == 0:
+                res.append(dict(name='C08_nst_%s_%s_clang' % (kind, tag), src=body, compiler='clang++'))
+    # an overflow-checked number combined with a rounding tag, either nest order, 8- and 16-bit representations
+    # (lowest / -1 is always among the values: the quotient fits the int result, no overflow signal may occur)
+    OT = ['saturated_overflow_tag', '_impl::throwing_overflow_tag', 'trapping_overflow_tag', 'undefined_overflow_tag', 'native_overflow_tag']
+    narrow = ['i8', 'u8', 'i16', 'u16']
+    ki = 0
+    for tag in TAGS:
+        for outside in ['true', 'false']:
+            ki += 1
+            body = '#include "%s"\nint main(){ install(); Rng rng(seed_from_env()+7000+%d);\n' % (H, ki)
+            for ot in OT:
+                pairs = [('i8', 'i8'), ('i16', 'i16'), (rnd3.choice(narrow), rnd3.choice(narrow))]
+                for (l, r) in pairs:
+                    ex = 'true' if (tier == 'thorough' and l == 'i8' and r == 'i8') else 'false'
+                    body += '  ovr<%s, %s, %s, %s, %s>(rng, %s);\n' % (TAGS[tag], ot, CT[l], CT[r], outside, ex)
+            body += '}\n'
+            res.append(dict(name='C08_ovr_%s_%s' % (tag, 'or' if outside == 'true' else 'ro'), src=body, compiler='g++'))
     return res
 
 
-RULE = ("all (a, b) pairs for 8-bit reps; boundary lattice + tie/near-tie dividends q*b +- b/2 +- 1 + seeded random for wider reps; "
+RULE = ("nst/ovr: digit-range boundary lattice + ties + seeded random, all four signedness mixes, negative divisors, lowest / -1; "
+        "all (a, b) pairs for 8-bit reps; boundary lattice + tie/near-tie dividends q*b +- b/2 +- 1 + seeded random for wider reps; "
         "non-trivial = divisor non-zero and the correctly rounded quotient is representable (for the other operators: the built-in operation is defined)")
